@@ -1,9 +1,14 @@
 (* C16 -- the read cache is transparent and its accounting exact.
-   Accounting / removal clauses over Model/Cache.v (public API of ClockCache).  Transparency
-   (cache on vs off, generation-tagged lookups) is established by execution: the C01 sequences in
-   the persistent configurations with the cache on and off must all equal the same reference map. *)
+   Accounting / removal clauses over Model/Cache.v (public API of ClockCache).  Transparency over
+   Model/CacheGen.v: the generation-tagged calls (layer A, compared with the real ClockCache and
+   real Records through hook H13) and the store's read / write / TTL paths around them (layer B)
+   under an arbitrary schedule of readers, writers, offloads, drops and evictions.  The same
+   machine with `on = false` is the store without a cache.  Execution adds the end-to-end tie: the
+   C01 sequences in the persistent configurations with the cache on and off must all equal the
+   same reference map. *)
 From Coq Require Import List NArith Bool.
 From Feox Require Import Gen.Constants Model.Bytes Model.Cache Proofs.CacheProofs.
+From Feox Require Import Model.Sched Model.CacheGen Proofs.CacheGenProofs.
 Import ListNotations.
 Local Open Scope N_scope.
 
@@ -41,13 +46,118 @@ Check eviction_reaches_the_low_watermark :
 Print Assumptions eviction_reaches_the_low_watermark.
 
 Theorem remove_is_never_followed_by_a_hit :
-  forall c k, CInv c -> fst (cget (cremove c k) k) = None.
+  forall c k, CInv c -> fst (cget (cremove c k) k) = None
+
+(* a lookup for generation g that hits returns the bytes of exactly that generation -- whatever
+   updates, deletes, re-creations with lower timestamps, TTL rewrites, offloads, drops, late
+   fills and evictions the schedule held *).
 Proof. exact remove_then_miss. Qed.
 Check remove_is_never_followed_by_a_hit :
-  forall c k, CInv c -> fst (cget (cremove c k) k) = None.
+  forall c k, CInv c -> fst (cget (cremove c k) k) = None
+
+(* a lookup for generation g that hits returns the bytes of exactly that generation -- whatever
+   updates, deletes, re-creations with lower timestamps, TTL rewrites, offloads, drops, late
+   fills and evictions the schedule held *).
 Print Assumptions remove_is_never_followed_by_a_hit.
+
+Theorem cached_value_is_served_only_for_its_generation :
+  forall on es k g v,
+    cg_get (b_cache (brun on binit es)) k (Some g) = Some v ->
+    exists r, aget g (b_gens (brun on binit es)) = Some r /\ gr_val r = v
+
+(* every value a read returns is the value of a generation of the key it asked for *).
+Proof. exact hit_serves_the_generation. Qed.
+Check cached_value_is_served_only_for_its_generation :
+  forall on es k g v,
+    cg_get (b_cache (brun on binit es)) k (Some g) = Some v ->
+    exists r, aget g (b_gens (brun on binit es)) = Some r /\ gr_val r = v
+
+(* every value a read returns is the value of a generation of the key it asked for *).
+Print Assumptions cached_value_is_served_only_for_its_generation.
+
+Theorem read_results_are_genuine :
+  forall on es i k g v,
+    In (i, k, Some (g, v)) (b_out (brun on binit es)) ->
+    exists r, aget g (b_gens (brun on binit es)) = Some r /\ gr_key r = k /\ gr_val r = v
+
+(* refinement: whatever the store with the cache answers under a schedule, the store without a
+   cache answers under the same schedule of calls and background steps (only answers of the
+   device that the cached run never asked for are chosen) -- same results, same table, same
+   generations, update_ttl's replacement built from cached bytes included *).
+Proof. exact results_are_genuine. Qed.
+Check read_results_are_genuine :
+  forall on es i k g v,
+    In (i, k, Some (g, v)) (b_out (brun on binit es)) ->
+    exists r, aget g (b_gens (brun on binit es)) = Some r /\ gr_key r = k /\ gr_val r = v
+
+(* refinement: whatever the store with the cache answers under a schedule, the store without a
+   cache answers under the same schedule of calls and background steps (only answers of the
+   device that the cached run never asked for are chosen) -- same results, same table, same
+   generations, update_ttl's replacement built from cached bytes included *).
+Print Assumptions read_results_are_genuine.
+
+Theorem cached_store_refines_the_cacheless_store :
+  forall es, exists es',
+    map erase es' = map erase es /\
+    b_out (brun false binit es') = b_out (brun true binit es) /\
+    b_tbl (brun false binit es') = b_tbl (brun true binit es) /\
+    b_gens (brun false binit es') = b_gens (brun true binit es)
+
+(* and when no device read is refused as stale (every sequential execution), step for step the
+   same results with the cache on and off *).
+Proof. exact cached_store_refines_cacheless. Qed.
+Check cached_store_refines_the_cacheless_store :
+  forall es, exists es',
+    map erase es' = map erase es /\
+    b_out (brun false binit es') = b_out (brun true binit es) /\
+    b_tbl (brun false binit es') = b_tbl (brun true binit es) /\
+    b_gens (brun false binit es') = b_gens (brun true binit es)
+
+(* and when no device read is refused as stale (every sequential execution), step for step the
+   same results with the cache on and off *).
+Print Assumptions cached_store_refines_the_cacheless_store.
+
+Theorem cache_on_equals_cache_off_without_stale_reads :
+  forall es, all_good_reads es ->
+    b_out (brun true binit es) = b_out (brun false binit es) /\
+    b_tbl (brun true binit es) = b_tbl (brun false binit es) /\
+    b_gens (brun true binit es) = b_gens (brun false binit es)
+
+(* at most one entry per key, so a lookup cannot pick among several *).
+Proof. exact cache_is_transparent_without_stale_reads. Qed.
+Check cache_on_equals_cache_off_without_stale_reads :
+  forall es, all_good_reads es ->
+    b_out (brun true binit es) = b_out (brun false binit es) /\
+    b_tbl (brun true binit es) = b_tbl (brun false binit es) /\
+    b_gens (brun true binit es) = b_gens (brun false binit es)
+
+(* at most one entry per key, so a lookup cannot pick among several *).
+Print Assumptions cache_on_equals_cache_off_without_stale_reads.
+
+Theorem one_cache_entry_per_key :
+  forall on es, NoDup (ckeys (b_cache (brun on binit es))).
+Proof. exact one_entry_per_key. Qed.
+Check one_cache_entry_per_key :
+  forall on es, NoDup (ckeys (b_cache (brun on binit es))).
+Print Assumptions one_cache_entry_per_key.
 Example accounting_unfolds : forall c, CInv c -> cmem c = total (buckets c).
 Proof. intros c [_ H _]. exact H. Qed.
 Example murmur_vectors :
   murmur3_32 [] 0 = 0 /\ murmur3_32 [97] 0 = 1009084850 /\ murmur3_32 [97; 98; 99; 100; 101] 0 = 3902511862.
+Proof. vm_compute. repeat split; reflexivity. Qed.
+
+(* non-vacuity: a schedule in which the cache serves a hit, update_ttl rebuilds the value from the
+   cached bytes, and a late fill for a superseded generation lands in the cache (no entry of the
+   key was left to refuse it) but is never served to a reader of the current generation *)
+Example cache_gen_run :
+  let es := [BPut 1 70 5 0; BOffload 1; BStart 9 1; BResolve 9 false; BFill 9 false;
+             BStart 8 1; BResolve 8 true; BFill 8 true;
+             BStart 7 1; BResolve 7 false;
+             BTtl 1 6 0; BFill 7 false;
+             BStart 6 1; BResolve 6 false; BFill 6 true] in
+  map (fun x => match x with (i, _, Some (g, v)) => (i, g, v) | (i, _, None) => (i, 0, 0) end) (b_out (brun true binit es))
+    = [(6, 2, 70); (7, 1, 70); (8, 1, 70); (9, 1, 70)]
+  /\ b_cache (brun true binit es) = [mkcent 1 (Some 1) 70]
+  /\ cg_get (b_cache (brun true binit es)) 1 (Some 2) = None
+  /\ resident (brun true binit es) 2 = true /\ resident (brun false binit es) 2 = false.
 Proof. vm_compute. repeat split; reflexivity. Qed.
